@@ -1,8 +1,18 @@
+// `rustyyato_chess_verif` is a verification-only cfg, never set by a normal build
+#![allow(unexpected_cfgs)]
+
+#[cfg(not(rustyyato_chess_verif))]
 use std::{
     cell::Cell,
     marker::PhantomData,
     sync::atomic::{AtomicBool, Ordering},
 };
+#[cfg(rustyyato_chess_verif)]
+use std::{cell::Cell, marker::PhantomData};
+// verification seam (off by default): same API as std's AtomicBool, but every
+// access first yields to the simulator's scheduler
+#[cfg(rustyyato_chess_verif)]
+use verif_seam::atomic::{AtomicBool, Ordering};
 
 static IS_ENABLED: AtomicBool = AtomicBool::new(true);
 
